@@ -714,3 +714,56 @@ def saturate(pid):
         res.floor("to-timestamp conversion functions", n, ctx.table("floors").get("saturate_fns", 0))
         return res
     return run
+
+
+def idwidth(pid):
+    """R-IDWIDTH: sector ids, mini-sector ids and stream ids are 32-bit, and so are the indices into the tables that
+    hold them.  In the allocators, the directory and the chain handles no such value passes through a type narrower
+    than 32 bits unless interval evaluation shows that it fits: `id as u16` as the index of a seen-set makes ids that
+    differ by 65536 the same - a large but legal file is then refused by the library that wrote it."""
+    inner = narrow_in(pid, ["internal::minialloc::", "internal::alloc::", "internal::directory::", "internal::chain::", "internal::minichain::", "internal::sector::"], "the allocators, the directory, the chain handles and the sector layer")
+
+    def run(ctx):
+        r = inner(ctx)
+        res = RuleResult("R-IDWIDTH(%s)" % pid, "in the allocators, the directory, the chain handles and the sector layer no integer cast narrows to fewer than 32 bits a value that interval evaluation cannot show to fit")
+        kept = [f for f in r.findings if re.search(r"-to-[ui](8|16)$", f.key)]
+        for f in kept:
+            f.rule = res.rule
+            f.key = f.key.replace("R-NARROW(%s)/" % pid, "R-IDWIDTH/")
+            f.msg = re.sub(r"different code units / characters become equal after the cast", "ids or indices that differ by a multiple of the narrow type's range become equal after the cast", f.msg)
+            res.fail(f)
+        res.obligations += r.obligations - len(r.findings)
+        res.discharged += r.obligations - len(r.findings)
+        res.nontrivial += r.nontrivial
+        res.floor("integer casts", r.floors.get("integer casts", (0, 0))[0], ctx.table("floors").get("idwidth_casts", 0))
+        return res
+    return run
+
+
+def written(pid):
+    """R-WRITTEN: a `Write::write` of the layers below the stream handle (Sector, Chain, MiniChain) answers Ok(n) with
+    the n the layer below it reported for a write it actually made (or Ok(0) for an empty buffer).  An Ok(n) computed
+    from the buffer's length on a path that made no write ("these bytes are zeros and the space is fresh") claims
+    bytes that are not in the file; whatever was there before - a removed stream's data in a recycled mini sector -
+    reads back instead."""
+    def run(ctx):
+        res = RuleResult("R-WRITTEN(%s)" % pid, "every Ok(n) returned by the Write::write impls of Sector, Chain and MiniChain carries the count reported by a write call of the layer below (or the constant 0)")
+        n = 0
+        for f in ctx.fx.fns.values():
+            if f.d.get("impl_trait") != "std::io::Write" or f.d.get("name") != "write" or not re.search(r"internal::(chain|minichain|sector)::", f.path):
+                continue
+            pr = Prov(f)
+            for bb, blk in enumerate(f.blocks):
+                if blk["cleanup"]:
+                    continue
+                for i, st in enumerate(blk["stmts"]):
+                    if st["s"] == "assign" and st["place"]["local"] == 0 and not st["place"]["proj"] and st["rv"]["r"] == "aggregate" and st["rv"].get("variant") == "Ok" and st["rv"].get("ops"):
+                        n += 1
+                        val = pr.operand(st["rv"]["ops"][0])
+                        if re.match(r"^const:0", val) or re.search(r"::write\(|Write::write\(|write_all\(", val):
+                            res.ok({"function": f.path, "line": st["span"]["line"], "count": val[:70]}, nontrivial=True)
+                        else:
+                            res.fail(Finding(res.rule, "R-WRITTEN/%s/count-not-from-a-write" % f.path, "%s can answer Ok(%s), a count that no write call of the layer below reported: bytes are claimed as written on a path that wrote nothing" % (f.path.split("::")[-2] if "::" in f.path else f.path, val[:80]), f, st["span"]))
+        res.floor("Ok returns of the lower layers' write", n, ctx.table("floors").get("written_oks", 0))
+        return res
+    return run
